@@ -66,6 +66,19 @@ func scriptList() []spec {
 			add(spec{Script: "size-bound", Kind: kind, Workers: 1, MaxSize: m})
 		}
 	}
+	// full bounded queue: re-schedule a pending identifier (must replace, never drop) / add after a Cancel freed a slot
+	for _, far := range []bool{true, false} {
+		for _, m := range []int{1, 2, 3} {
+			for _, rel := range []int{-1, 0, 1} {
+				add(spec{Script: "bounded-replace", Kind: kTask, Workers: 1, MaxSize: m, Rel: rel, Far: far})
+				add(spec{Script: "bounded-replace", Kind: kTask, Workers: 2, MaxSize: m, Rel: rel, Far: far, Probe: true})
+				for _, kind := range []string{kQueue, kExec, kTask} {
+					add(spec{Script: "bounded-add-after-cancel", Kind: kind, Workers: 1 + m%2, MaxSize: m, Rel: rel, Far: far})
+				}
+				add(spec{Script: "bounded-add-after-cancel", Kind: kTask, Workers: 1, MaxSize: m, Rel: rel, Far: far, Probe: true})
+			}
+		}
+	}
 	for _, kind := range []string{kQueue, kExec, kTask} {
 		for _, blocker := range []bool{true, false} {
 			for _, fl := range []int{0, fCancel, fIgnore, fCancel | fIgnore, fPanic, fDontWait, fIgnore | fDontWait, fPanic | fIgnore} {
@@ -224,6 +237,61 @@ func runScript(sp spec) *run {
 		if sp.Kind == kQueue {
 			r.startPollers(sp.Workers)
 		} else {
+			r.open(g)
+		}
+
+	case "bounded-replace", "bounded-add-after-cancel":
+		// every worker is held at a gate, so nothing is polled and the heap really holds what was added
+		var gs []*item
+		for i := 0; i < sp.Workers; i++ {
+			g := r.appendItem(100+i, -1000, true)
+			r.schedule(g)
+			r.waitStarted(g)
+			gs = append(gs, g)
+		}
+		m := sp.MaxSize
+		base := time.Now().Add(time.Duration(sp.ahead()) * time.Microsecond)
+		var es []*item
+		for i := 0; i < m; i++ {
+			e := r.appendItem(i+1, sp.ahead(), false)
+			e.abs = base // all pending elements carry the same key
+			r.schedule(e)
+			es = append(es, e)
+		}
+		r.settle(nil)
+		full := r.size() == m && r.lastObs.inCallback == sp.Workers
+		relName := map[int]string{-1: "earlier", 0: "equal", 1: "later"}[sp.Rel]
+		target := es[0]
+		if sp.Probe {
+			target = es[m-1]
+		}
+		newID := target.id // bounded-replace: the same identifier again
+		if sp.Script == "bounded-add-after-cancel" {
+			if sp.Kind == kTask && sp.Probe {
+				r.cancelID(target.id)
+			} else {
+				r.cancelItem(target)
+			}
+			r.settle(nil)
+			full = full && r.size() == m-1
+			newID = m + 1
+		}
+		n := r.appendItem(newID, sp.ahead()+int64(sp.Rel)*10000, false)
+		n.abs = base.Add(time.Duration(sp.Rel) * 10 * time.Millisecond)
+		r.schedule(n)
+		r.settle(nil)
+		if full {
+			r.patterns["gated:"+sp.Script] = true
+			if sp.Script == "bounded-replace" {
+				r.cnt["replacements_into_full_bounded_queue:"+relName]++
+			} else {
+				r.cnt["adds_into_full_bounded_queue_after_cancel:"+relName]++
+			}
+			if r.size() != m {
+				r.patterns["bounded-queue-size-changed-by-replacement"] = true
+			}
+		}
+		for _, g := range gs {
 			r.open(g)
 		}
 
